@@ -111,4 +111,26 @@ def holdsFinal (sel operating : List Nat) (ops : List Nat) (entries : List (Nat 
   && entries.all (fun e => e.2.2.1 == e.1 && e.2.2.2 == e.2.1)
   && ops == ms.map (fun m => sel.getD (m - 1) 0)
 
+/-! ## monitors of the real-run ops (`sign`, `wsign`) -/
+
+/-- observation of a DKG-then-sign run: the DKG succeeded for every operating member with one key;
+    every member's stored final index points at its own key-generation party key in `Ks`; and per
+    honest-threshold subset of the final group: all members returned the same signature, it
+    verifies under the wallet key, `s` is low and the recovery id is in range. -/
+structure SignObs where
+  dkgOk : Bool
+  ksOk : Bool
+  sigs : List Bool
+deriving Repr
+
+def holdsSign (o : SignObs) : Bool := o.dkgOk && o.ksOk && o.sigs.all id
+
+/-- observation of a wallet signing through the tbtc signing executor -/
+structure WsignObs where
+  dkgOk : Bool
+  sigOk : Bool
+deriving Repr
+
+def holdsWsign (o : WsignObs) : Bool := o.dkgOk && o.sigOk
+
 end KeepVerif.C08
